@@ -139,6 +139,10 @@ def is_fresh(expr: ast.AST, fn: ast.AST, depth: int = 0, ctor_names: tuple[str, 
         cfg = N.kwarg(expr, "cfg")
         if cfg is not None and isinstance(cfg, ast.Call) and dotted_of(cfg.func) in DEEPCOPY:
             return True
+        if cfg is not None and isinstance(cfg, ast.Name):
+            # K(cfg=<local bound only to deep copies>)
+            defs = assignments_to(fn, cfg.id)
+            return bool(defs) and all(isinstance(d, ast.Call) and dotted_of(d.func) in DEEPCOPY for d in defs)
         return False
     if isinstance(expr, ast.Name):
         defs = assignments_to(fn, expr.id)
